@@ -74,6 +74,13 @@ def build(spec, tmpdir):
         ds = KDImageFolder(tmpdir, transform=treg.build(w["t"]))
     elif kind == "collators_only":
         ds = CollRoot(w["n"], w["key"], "img3", make_collators(w["collators"]))
+    elif kind == "multiview_pair":
+        # one list of view configs handed to an unseeded (train) and a seeded (eval) multi-view wrapper that live side by side
+        import kappadata.wrappers as W
+        cfgs = [(c["n_views"], treg.build(c["t"])) for c in w["configs"]]
+        train = W.KDMultiViewWrapper(c08.ImgRoot(w["n"], w["key"], "img3"), configs=cfgs, seed=None)
+        evalw = W.KDMultiViewWrapper(c08.ImgRoot(w["n"], w["key"] + 1, "img3"), configs=cfgs, seed=5)
+        ds = KDConcatDataset([train, evalw])
     else:
         ds = c08.build_stack(w)
         if w.get("collators"):
@@ -105,10 +112,18 @@ def build(spec, tmpdir):
             ds = ModeWrapper(ds, mode="x", return_ctx=False)
         elif layer == "interleaved":
             from kappadata.samplers import InterleavedSampler, InterleavedSamplerConfig
-            other = c08.ImgRoot(3, 2, "img")
-            s = InterleavedSampler(main_sampler=torch.utils.data.SequentialSampler(ds), batch_size=1,
-                                   configs=[InterleavedSamplerConfig(sampler=torch.utils.data.SequentialSampler(other), every_n_epochs=1)],
-                                   epochs=1)
+            from kappadata.transforms import KDRandomHorizontalFlip
+            from kappadata.wrappers import XTransformWrapper
+            # interleaved datasets: one over its own root, one with its own stochastic stack over the main dataset's root
+            # (e.g. test-time augmentation of the training data)
+            other = XTransformWrapper(c08.ImgRoot(3, 2, "img"), transform=KDRandomHorizontalFlip(p=0.5))
+            cfgs = [InterleavedSamplerConfig(sampler=torch.utils.data.SequentialSampler(other), every_n_epochs=1)]
+            try:
+                shared = XTransformWrapper(ds.root_dataset, transform=KDRandomHorizontalFlip(p=0.5))
+                cfgs.append(InterleavedSamplerConfig(sampler=torch.utils.data.SequentialSampler(shared), every_n_epochs=1))
+            except Exception:
+                pass
+            s = InterleavedSampler(main_sampler=torch.utils.data.SequentialSampler(ds), batch_size=1, configs=cfgs, epochs=1)
             ds = s.dataset
     return ds
 
@@ -179,7 +194,15 @@ def check(spec):
         _init(wa, sa, spec["rank"])
         _init(wb, sb, spec["rank"])
         _init(wa2, sa, spec["rank"])
+        if spec["w"]["kind"] == "multiview_pair":
+            # the seeded neighbour serves one sample in every worker; the unseeded wrapper's streams must stay per-worker
+            for d in (wa, wb, wa2):
+                d.datasets[1].getitem_x(0)
         A, B, A2 = _states(wa), _states(wb), _states(wa2)
+        if spec["w"]["kind"] == "multiview_pair":
+            # the seeded wrapper re-injects default_rng(seed + idx) on every access by design (C08): its generators are a
+            # function of (seed, idx), not of the worker - only the unseeded neighbour is judged here
+            A, B, A2 = ({p_: v for p_, v in D_.items() if not p_.startswith(".datasets[1]")} for D_ in (A, B, A2))
         if set(A) != set(B):
             raise Violation("generator-set-differs-between-workers", str(sorted(set(A) ^ set(B)))[:300])
         def _confirmed_equal(p):
@@ -204,6 +227,8 @@ def check(spec):
             raise Violation(f"worker-replays-part-of-another-stream:{treg.owner_chain(wa, p)}", f"state of {p} occurs in the other worker")
         # stream-level confirmation on copies of the generators
         for p in sorted(A)[:6]:
+            if p not in A:
+                continue
             ga = copy.deepcopy(treg.walk_generators(wa)[p])
             gb = copy.deepcopy(treg.walk_generators(wb)[p])
             if np.array_equal(ga.random(4), gb.random(4)):
@@ -268,8 +293,8 @@ WITHSCHED = treg.img_composite(depth=3, allow_scheduled=True)
 @st.composite
 def stack(draw, tier, for_real=False):
     kind = draw(st.sampled_from(["x", "x", "x", "y", "multiview", "multiview", "semseg", "semseg", "minaug_x", "minaug_mv", "mix",
-                                 "imagefolder", "collators_only", "mugs", "byol"]))
-    if for_real and kind == "imagefolder":
+                                 "imagefolder", "collators_only", "mugs", "byol", "multiview_pair"]))
+    if for_real and kind in ("imagefolder", "multiview_pair"):
         kind = "x"
     w = {"kind": kind, "n": draw(st.integers(2, 5)), "key": draw(st.integers(0, 99)),
          "seed": draw(st.sampled_from([None, None, None, 5])), "pos": draw(st.sampled_from(["top", "under_pass", "over_subset", "under_subset"]))}
@@ -280,6 +305,10 @@ def stack(draw, tier, for_real=False):
         w["configs"] = [{"n_views": draw(st.integers(1, 2)), "t": draw(st.one_of(WITHSCHED, WITHSCHED, st.just("plain")))}
                         for _ in range(draw(st.integers(1, 3)))]
         w["fam"] = "img3"
+    elif kind == "multiview_pair":
+        w["configs"] = [{"n_views": draw(st.integers(1, 2)), "t": draw(treg.leaf_spec(draw(st.sampled_from(
+            ["KDRandomHorizontalFlip", "KDAdditiveUniformNoise", "KDRandomGrayscale", "KDAdditiveGaussianNoise"]))))}
+            for _ in range(draw(st.integers(1, 2)))]
     elif kind == "mix":
         w.update(p=1.0, alpha=1.0, fam="img3", pos=draw(st.sampled_from(["top", "over_subset"])))
     elif kind == "semseg":
@@ -301,6 +330,8 @@ def stack(draw, tier, for_real=False):
         top = [t for t in top if t not in ("mode", "interleaved")] + [next(t for t in top if t in ("mode", "interleaved"))]
     if kind in ("mix", "semseg") and "mode" in top:
         top = ["mode"]
+    if kind == "multiview_pair":
+        top = []
     return {"w": w, "top": top, "g0": draw(st.integers(0, 999)), "seed_a": draw(st.integers(0, 2 ** 31 - 1)),
             "seed_b": draw(st.integers(0, 2 ** 31 - 1)), "rank": draw(st.integers(0, 3)),
             "pre_init": draw(st.sampled_from([None, None, 7, 12345]))}
